@@ -23,6 +23,7 @@ TRUSTED_COMMON = [
 class Spec:
     """What a property check consists of."""
     pid = None
+    oos_structure = False      # properties about error structure use the errors-mode search for out-of-subset tasks
     level = "proof"
     design_ref = ""
     trusted = []
@@ -105,7 +106,14 @@ def run_check(spec, tier="quick", root="/repo", seed=0):
             report["crashes"].append({"task": r["task"], "detail": r.get("detail", "")[-1500:]})
             continue
         if r["status"] == "out-of-subset":
-            report["undecided"].append({"name": r["task"], "reason": "out of subset: " + r.get("detail", "")})
+            # the function left the engine's subset: no proof either way; a failing input found by the
+            # directed search on the real code is still a replayed violation
+            fake = {"name": r["task"] + "/out-of-subset", "kind": "F", "status": "unknown", "reason": "out of subset: " + r.get("detail", ""),
+                    "note": "function outside the verified subset"}
+            if spec.oos_structure:
+                fake["name"] += "/F/structure"
+            before = len(report["violations"])
+            decide_undischarged(spec, known, report, r, fake, root)
             continue
         for ob in r["obligations"]:
             if not spec.select(ob, r):
